@@ -97,6 +97,7 @@ TRIAGE = {
     "cef11bffad": "equivalent for the public API (as 2e3d44041f: the old-id slot of `sources_mapping` is read by `rewrite` only, which goes through `add_token`)",
     "2e790904db": "equivalent: assigning an equal value",
     "8c94c9191c": "equivalent with the `unicode-id-start` tables in use: U+200C / U+200D then fall through to `is_id_continue_unicode`, which accepts them (the harness probes the crate's predicate for every non-ASCII character of every case, so a difference would have been a `pool-mismatch`)",
+    "43d242189c": "equivalent (as ffce853adc: the other column-scanning loop of `RevTokenIter::next`)",
     "6812f09c9a": "`split_path` is used by `find_common_prefix` (the `~` option of `rewrite`) only, not by `make_relative_path`: outside C19; C09 holds for explicit prefixes and for whatever `~` computes (the stripped prefix is part of its statement)",
 }
 
@@ -105,14 +106,22 @@ def automut():
     rows = []
     tot = {}
     surv = []
+    seen_ids = {}
     for lp in sorted(glob.glob(os.path.join(HERE, "automut", "log-*.jsonl"))):
         for line in open(lp):
             r = json.loads(line)
-            tot[r["outcome"]] = tot.get(r["outcome"], 0) + 1
+            # the lanes draw from the same candidate list: count every distinct mutant once (a mutant reported in one
+            # lane and missed in another - the stress-based checks - counts as reported)
+            prev = seen_ids.get(r["id"])
+            if prev is None or (prev == "SURVIVED" and r["outcome"] == "caught"):
+                seen_ids[r["id"]] = r["outcome"]
             if r["outcome"] == "SURVIVED":
                 surv.append(r)
+    for o in seen_ids.values():
+        tot[o] = tot.get(o, 0) + 1
+    surv = [r for r in surv if seen_ids.get(r["id"]) == "SURVIVED"]
     n = sum(tot.values())
-    head = "%d operator mutants generated inside the anchored functions: %d did not compile, %d were killed by the crate's own 48 tests, **%d passed the suite**; of those %d were reported by a quick check of a property anchored on the mutated function and %d were not:" % (
+    head = "%d distinct operator mutants generated inside the anchored functions: %d did not compile, %d were killed by the crate's own 48 tests, **%d passed the suite**; of those %d were reported by a quick check of a property anchored on the mutated function and %d were not:" % (
         n, tot.get("does-not-compile", 0), tot.get("killed-by-suite", 0), tot.get("caught", 0) + tot.get("SURVIVED", 0), tot.get("caught", 0), tot.get("SURVIVED", 0))
     rows.append(head)
     rows.append("")
